@@ -334,6 +334,7 @@ def scen_c08(binary):
                 rc_all |= fail("backup=%s failing=%s: backups present=%s" % (backup, failing, has))
         finally:
             shutil.rmtree(root, ignore_errors=True)
+    rc_all |= scen_c08_modes(binary)
     return rc_all
 
 
@@ -421,6 +422,65 @@ def scen_c18(binary):
                 rc_all |= fail("threads=%s: big.txt could not be written (EFBIG) but exit %d, recorded %s" % (threads, p.returncode, names))
         finally:
             shutil.rmtree(root, ignore_errors=True)
+        # .pc/applied-patches itself is cut short: 40 patch names (> 1 KiB) under a 1 KiB file size limit
+        root = tempfile.mkdtemp()
+        try:
+            os.makedirs(os.path.join(root, "patches"))
+            open(os.path.join(root, "t.txt"), "w").write("0\n")
+            names = []
+            for i in range(40):
+                pn = "a-rather-long-patch-name-to-fill-the-file-%02d.patch" % i
+                open(os.path.join(root, "patches", pn), "w").write("--- a/t.txt\n+++ b/t.txt\n@@ -1 +1 @@\n-%d\n+%d\n" % (i, i + 1))
+                names.append(pn)
+            open(os.path.join(root, "series"), "w").write("".join(n + "\n" for n in names))
+            p = subprocess.run(["bash", "-c", "trap '' XFSZ; ulimit -f 1; exec \"$0\" push -d \"$1\" -a --threads %s --backup never" % threads, binary, root],
+                               capture_output=True, text=True, timeout=120)
+            ap = os.path.join(root, ".pc", "applied-patches")
+            got = open(ap).read().split() if os.path.isfile(ap) else []
+            if p.returncode == 0 and got != names:
+                rc_all |= fail("threads=%s: applied-patches holds %d of %d names (file size limit) but exit 0" % (threads, len(got), len(names)))
+        finally:
+            shutil.rmtree(root, ignore_errors=True)
+    return rc_all
+
+
+def scen_c08_modes(binary):
+    """the backup carries the mode the file had before the patch, also for modes the umask would filter (0664, 0775, 0600)
+    and when the backup file exists already"""
+    rc_all = 0
+    old_umask = os.umask(0o022)
+    try:
+        for threads in ("1", "2"):
+            root = tempfile.mkdtemp()
+            try:
+                os.makedirs(os.path.join(root, "patches"))
+                for name, mode in (("shared.txt", 0o664), ("tool.sh", 0o775), ("secret.txt", 0o600)):
+                    open(os.path.join(root, name), "w").write("one\ntwo\n")
+                    os.chmod(os.path.join(root, name), mode)
+                series = []
+                for i, name in enumerate(("shared.txt", "tool.sh", "secret.txt", "shared.txt")):
+                    pn = "m%d.patch" % i
+                    cur = "one\ntwo\n" if i < 3 else "one\ntwo\nmore 0\n"
+                    open(os.path.join(root, "patches", pn), "w").write(udiff(cur, cur + "more %d\n" % i, "a/" + name, "b/" + name))
+                    series.append(pn)
+                open(os.path.join(root, "series"), "w").write("".join(x + "\n" for x in series))
+                # a stale backup file with another mode already sits where the first backup goes
+                os.makedirs(os.path.join(root, ".pc", "m0.patch"))
+                open(os.path.join(root, ".pc", "m0.patch", "shared.txt"), "w").write("stale\n")
+                os.chmod(os.path.join(root, ".pc", "m0.patch", "shared.txt"), 0o600)
+                rc, out = push(binary, root, ["-a", "--threads", threads, "--backup", "always"])
+                if rc != 0:
+                    rc_all |= fail("modes threads=%s: push failed (exit %d)" % (threads, rc))
+                for pn, name, mode in (("m0.patch", "shared.txt", 0o664), ("m1.patch", "tool.sh", 0o775), ("m2.patch", "secret.txt", 0o600), ("m3.patch", "shared.txt", 0o664)):
+                    bp = os.path.join(root, ".pc", pn, name)
+                    if not os.path.exists(bp):
+                        rc_all |= fail("modes threads=%s: missing backup %s/%s" % (threads, pn, name))
+                    elif stat.S_IMODE(os.lstat(bp).st_mode) != mode:
+                        rc_all |= fail("modes threads=%s: backup %s/%s has mode %o, the file had %o" % (threads, pn, name, stat.S_IMODE(os.lstat(bp).st_mode), mode))
+            finally:
+                shutil.rmtree(root, ignore_errors=True)
+    finally:
+        os.umask(old_umask)
     return rc_all
 
 
@@ -453,6 +513,24 @@ def scen_c16(binary):
             shutil.rmtree(w, ignore_errors=True)
     finally:
         shutil.rmtree(root, ignore_errors=True)
+    # every spelling / order of the per-patch options getopts accepts means the same thing
+    for opts in ("-p0 -R", "-R -p0", "-p 0 -R", "--strip=0 -R", "-Rp0", "-p0 --reverse", "--reverse --strip 0"):
+        for threads in ("1", "2"):
+            root = tempfile.mkdtemp()
+            try:
+                os.makedirs(os.path.join(root, "patches"))
+                os.makedirs(os.path.join(root, "dir"))
+                open(os.path.join(root, "dir", "rev.txt"), "w").write("NEW\n")
+                open(os.path.join(root, "k.txt"), "w").write("k\n")
+                open(os.path.join(root, "patches", "first.patch"), "w").write("--- dir/rev.txt\n+++ dir/rev.txt\n@@ -1 +1 @@\n-OLD\n+NEW\n")
+                open(os.path.join(root, "patches", "second.patch"), "w").write("--- a/k.txt\n+++ b/k.txt\n@@ -1 +1 @@\n-k\n+K\n")
+                open(os.path.join(root, "series"), "w").write("# c\n\nfirst.patch %s\nsecond.patch\n" % opts)
+                rc, out = push(binary, root, ["-a", "--threads", threads])
+                got = (open(os.path.join(root, "dir", "rev.txt")).read(), open(os.path.join(root, "k.txt")).read())
+                if rc != 0 or got != ("OLD\n", "K\n"):
+                    rc_all |= fail("threads=%s series options %r (strip 0, reversed): exit %d, files %r" % (threads, opts, rc, got))
+            finally:
+                shutil.rmtree(root, ignore_errors=True)
     # history-dependent name choice: the in-memory view (deleted / created earlier in this run) overrides the disk
     root = tempfile.mkdtemp()
     try:
